@@ -439,13 +439,58 @@ func ext۰reflect۰Append(fr *frame, args []value) value {
 	if !ok {
 		panic(targetPanicMsg("reflect.Append: not a slice"))
 	}
-	cur := rV2V(s).([]value)
-	out := append([]value(nil), cur...)
+	cur, _ := rV2V(s).([]value)
+	// as the real reflect.Append (and the append built-in): the elements are
+	// written in place while the capacity lasts, so the result may share its
+	// backing array with the argument and with every slice cut from the same array
+	out := cur
 	for _, x := range args[1].([]value) {
 		if !types.AssignableTo(rV2T(x).t, sl.Elem()) {
 			panic(targetPanicMsg(fmt.Sprintf("reflect.Append: value of type %s is not assignable to type %s", reflectTypeString(rV2T(x).t), reflectTypeString(sl.Elem()))))
 		}
+		fr.i.noteAppend(out)
 		out = append(out, assignTo(sl.Elem(), x))
+	}
+	return makeReflectValue(st, out)
+}
+
+// cloneAggregate copies struct and array values (which are held by reference
+// in the executor) so that the copy does not alias the original.
+func cloneAggregate(v value) value {
+	switch v := v.(type) {
+	case structure:
+		out := make(structure, len(v))
+		for i := range v {
+			out[i] = cloneAggregate(v[i])
+		}
+		return out
+	case array:
+		out := make(array, len(v))
+		for i := range v {
+			out[i] = cloneAggregate(v[i])
+		}
+		return out
+	}
+	return v
+}
+
+// reflect.AppendSlice(s, t Value) Value
+func ext۰reflect۰AppendSlice(fr *frame, args []value) value {
+	s, t := args[0], args[1]
+	st := rV2T(s).t
+	sl, ok := st.Underlying().(*types.Slice)
+	if !ok {
+		panic(targetPanicMsg("reflect.AppendSlice: not a slice"))
+	}
+	tl, ok := rV2T(t).t.Underlying().(*types.Slice)
+	if !ok || !types.Identical(tl.Elem(), sl.Elem()) {
+		panic(targetPanicMsg("reflect.AppendSlice: element types differ"))
+	}
+	out, _ := rV2V(s).([]value)
+	more, _ := rV2V(t).([]value)
+	for _, x := range more {
+		fr.i.noteAppend(out)
+		out = append(out, cloneAggregate(x))
 	}
 	return makeReflectValue(st, out)
 }
